@@ -78,6 +78,7 @@ Fixpoint equal_fuel (fuel : nat) (a b : node) : bool :=
       | VBigDec n1 d1, VBigDec n2 d2 =>
         Bool.eqb n1 n2 && bytes_eqb (clean_digits c d1) (clean_digits c d2)
       | VRatio n1 d1, VRatio n2 d2 => (n1 =? n2) && (d1 =? d2)
+      | VBigRatio s1 a1 b1, VBigRatio s2 a2 b2 => Bool.eqb s1 s2 && bytes_eqb a1 a2 && bytes_eqb b1 b2
       | VChar x, VChar y => x =? y
       | VString r1 e1 _, VString r2 e2 _ => Bool.eqb e1 e2 && bytes_eqb r1 r2
       | VSymbol ns1 nm1, VSymbol ns2 nm2
@@ -102,7 +103,7 @@ Fixpoint equal_fuel (fuel : nat) (a b : node) : bool :=
       | VTagged t1 x, VTagged t2 y => bytes_eqb t1 t2 && equal_fuel f x y
       | VExternal t1 d1, VExternal t2 d2 =>
         (t1 =? t2) && match ext_equal t1 with Some eqf => eqf d1 d2 | None => d1 =? d2 end
-      | _, _ => false      (* includes BIGRATIO: no case in the switch *)
+      | _, _ => false
       end
   end.
 
